@@ -241,3 +241,35 @@ Proof.
   exists d. unfold configuration. rewrite Hd. split; [reflexivity|]. split; [exact Hp|].
   destruct (load_collection_effect fs c0 (Node d)) as [H1 [H2 [H3 _]]]. auto.
 Qed.
+
+(** * F-C19c: a body creates a setting whose variable name another setting has *)
+Definition ns_script_c : item :=
+  ISub None true (Node [("db", Node [("host", Leaf (VStr "localhost"))])])
+       [ITask (tk 1 "first") None [] None; ITask (tk 2 "second") None [] None] None false.
+
+Definition clash_bodies : list (nat * list op) := [(1, [SetV Item [] "db_host" (Leaf (VStr "x"))])].
+
+(** `first second`, no environment variable set: [first] writes db_host; the
+    reload before [second] refuses (AmbiguousEnvVar), [second] never runs and
+    the error escapes execute().  Judged: not as specified.  The same session
+    without the write, and the same write of a name nothing else answers to,
+    are fine. *)
+Lemma refuted_env_name_clash :
+  exists c, build ns_script_c = Ok c /\
+    let i := mkInit (Node []) (Node []) None None false in
+    let reqs := [("first", leaf_call 1); ("second", leaf_call 2)] in
+    (exists v0 v1, session c i clash_bodies reqs None true [[]] = Ok ([(1, v0, [ONone], v1)], Some EAmbigEnv) /\
+                   leaf_at ["db_host"] (Node v1) = Some (VStr "x") /\
+                   leaf_at ["db"; "host"] (Node v1) = Some (VStr "localhost")) /\
+    C19Spec.spec_ok c (Node []) (Node []) (body_of clash_bodies) [[]] (session c i clash_bodies reqs None true [[]]) = false /\
+    C19Spec.spec_ok c (Node []) (Node []) (body_of []) [[]] (session c i [] reqs None true [[]]) = true /\
+    (let other := [(1, [SetV Item [] "db_port" (Leaf (VStr "x"))])] in
+     C19Spec.spec_ok c (Node []) (Node []) (body_of other) [[]] (session c i other reqs None true [[]]) = true) /\
+    (* with the variable actually set the refusal is the documented one (C16): outside the statement *)
+    C19Spec.spec_ok c (Node []) (Node []) (body_of clash_bodies) [[("INVOKE_DB_HOST", "h")]]
+            (session c i clash_bodies reqs None true [[("INVOKE_DB_HOST", "h")]]) = true.
+Proof.
+  eexists. split; [vm_compute; reflexivity|]. cbv zeta.
+  split; [eexists; eexists; split; [vm_compute; reflexivity|]; split; vm_compute; reflexivity|].
+  repeat split; vm_compute; reflexivity.
+Qed.
